@@ -11,7 +11,7 @@ PR = dict(
     checksum=4,
 )
 
-TRANSPARENT_BUF = ("::deref_mut", "::deref", "::as_mut_slice", "::as_mut", "::index_mut", "::index", "::borrow_mut")
+TRANSPARENT_BUF = ("::deref_mut", "::deref", "::as_mut_slice", "::as_mut", "::index_mut", "::index", "::borrow_mut", "::split_at_mut", "::split_at", "::as_slice")
 
 
 def strip_casts(t):
